@@ -199,6 +199,12 @@ class Run:
                 rep["note"] = "functional clauses failed; not an obligation of this property" if not relevant else ""
                 if relevant:
                     self.candidate_violation(n, relevant, r)
+            elif policy == "own":
+                # only the clauses named for this property are its obligations; the other clauses of the shared units belong to C01-C03
+                relevant = [c for c in failed if c in P.PROPS[self.prop].get("own_clauses", [])]
+                rep["note"] = "clauses of other properties failed; not an obligation of this property" if not relevant else ""
+                if relevant:
+                    self.candidate_violation(n, relevant, r)
             elif policy == "undecided":
                 # parametricity claim: a unit that no longer verifies is undecided for this property, not a violation of it
                 self.undecided.append(f"{n}: no longer verifies ({', '.join(failed)[:160]}) - reported as a violation by the properties it serves")
